@@ -357,8 +357,12 @@ def run_kamax(case: Dict[str, Any]) -> CaseInfo:
 def recycle_case(draw: Any) -> Dict[str, Any]:
     m = draw(st.sampled_from([0, 1, 2, 5]))
     j = draw(st.sampled_from([0, 0, 1, 3]))
-    return {"kind": "recycle", "m": m, "j": j, "draw": draw(st.integers(0, j)),
-            "per_conn": draw(st.sampled_from([1, 1, 2, 100])), "sched": draw(st.integers(0, 999))}
+    per_conn = draw(st.sampled_from([1, 1, 2, 100]))
+    # slow applications (one request per connection): the requests are all still in flight
+    # when the threshold is crossed - taking a request on is what counts, not finishing it
+    slow = draw(st.sampled_from([0.0, 0.0, 5.0])) if per_conn == 1 else 0.0
+    return {"kind": "recycle", "m": m, "j": j, "draw": draw(st.integers(0, j)), "slow": slow,
+            "per_conn": per_conn, "sched": draw(st.integers(0, 999))}
 
 
 def run_recycle(case: Dict[str, Any]) -> CaseInfo:
@@ -376,6 +380,9 @@ def run_recycle(case: Dict[str, Any]) -> CaseInfo:
            "max_requests_jitter": j}
     progs = {"lifespan": [["recv"], ["send", {"type": "lifespan.startup.complete"}], ["recv"],
                           ["send", {"type": "lifespan.shutdown.complete"}]], "*": OK}
+    if case.get("slow"):
+        progs["*"] = [["recv_all"], ["sleep", case["slow"]]] + [op for op in OK
+                                                                 if op[0] != "recv_all"]
     limit = m + case["draw"]
 
     async def sc(env: Any) -> Any:
@@ -420,7 +427,8 @@ def run_recycle(case: Dict[str, Any]) -> CaseInfo:
             raise Violation("recycle_threshold_wrong", f"{served} requests were taken on before "
                             f"the graceful exit; max_requests={m} + jitter {case['draw']} means "
                             f"exactly {limit + 1}", **tag)
-    return CaseInfo(True, [f"m={m}", f"j={j}", f"per_conn={case['per_conn']}"], evals=2)
+    return CaseInfo(True, [f"m={m}", f"j={j}", f"per_conn={case['per_conn']}",
+                           "slow_apps" if case.get("slow") else "fast_apps"], evals=2)
 
 
 # ---------------------------------------------------------------------------
